@@ -106,6 +106,8 @@ type caseInput struct {
 	labels  int
 	nofuncs bool
 	novars  bool
+	onlyMk  bool                   // classification re-runs of a nofuncs case: only the rebinding helpers are callable
+	rebind  bool                   // classification re-run: pairs__ / dyn__ are callable
 	frames  []map[string]cty.Value // outermost first
 	src     string
 }
@@ -249,6 +251,18 @@ func (c *caseInput) evalCtx() *hcl.EvalContext {
 	funcs := caseFuncs
 	if c.nofuncs {
 		funcs = nil
+	}
+	if c.onlyMk {
+		funcs = rebindFuncs
+	} else if c.rebind && funcs != nil {
+		all := map[string]function.Function{}
+		for k, f := range funcs {
+			all[k] = f
+		}
+		for k, f := range rebindFuncs {
+			all[k] = f
+		}
+		funcs = all
 	}
 	if c.novars || len(c.frames) == 0 {
 		return &hcl.EvalContext{Functions: funcs}
